@@ -251,9 +251,9 @@ Proof.
 Qed.
 
 (* ---- any ---- *)
-Lemma any_logic_iff fs (cs : list Prop) p v :
+Lemma any_logic_iff ts fs (cs : list Prop) p v :
   Forall2 (fun f c => f p v = [] <-> c) fs cs ->
-  (any_logic fs p v = [] <-> fold_right (fun c acc => c \/ acc) False cs).
+  (any_logic ts fs p v = [] <-> fold_right (fun c acc => c \/ acc) False cs).
 Proof.
   intros H. unfold any_logic, elemfn in *.
   assert (E : existsb (fun f : path -> value -> list verror => match f p v with [] => true | _ => false end) fs = true <->
